@@ -285,7 +285,9 @@ func (c *Client) BlockchainInfo(ctx context.Context, minHeight, maxHeight int64)
 
 	// Verify each of the BlockMetas.
 	for _, meta := range res.BlockMetas {
-		h, err := c.lc.TrustedLightBlock(meta.Header.Height)
+		// NOTE: only the last (lowest) height was verified above and verification does not
+		// store intermediate blocks, so each listed height has to be verified itself.
+		h, err := c.updateLightClientIfNeededTo(ctx, &meta.Header.Height)
 		if err != nil {
 			return nil, fmt.Errorf("trusted header %d: %w", meta.Header.Height, err)
 		}
